@@ -24,6 +24,7 @@ func runC30(w *World, r *Report) {
 	r.Rule("R-C30-3", "values are bound, not spliced: in internal/resources nothing derived from Filter.Value or from a record's exploded field values flows into the statement text given to Exec/Query", 5)
 
 	c30PlaceholderBinding(w, r)
+	c30ReadReportsBrokenResults(w, r)
 
 	rp := w.pkg("internal/resources")
 	if rp == nil {
